@@ -499,10 +499,10 @@ Example C02_real_line_bound_computed :
   read_vtt_lim max_scan_token (vtt_bytes (a_vdoc 65536)) [max_scan_token; 0%nat] = Err EIO.
 Proof. exact vtt_real_line_bound_computed. Qed.
 (* ---- the model's literals are the constants of the Go source (Proofs/ConstTie.v, Gen/Consts.v regenerated from the
-   repository on every run by tools/genconsts): every WebVTT keyword, separator, tag and name the model spells out equals the
-   package-level constant, struct tag or bidirectional-map entry of the source, or occurs among the string literals of
-   the function the model transcribes.  A closed boolean computed by the kernel. ---- *)
-From Astisub Require Proofs.ConstTie.
-Theorem C02_constants_from_source : ConstTie.all ConstTie.VttTie.ties = true.
-Proof. exact ConstTie.VttTie.consts_from_source. Qed.
+   repository on every run by tools/genconsts): the WebVTT separators, keywords and names the model spells out equal the
+   NAMED package-level constants, struct tags and bidirectional-map entries of the source (literals inside function bodies and
+   regexp patterns are deliberately not tied: see Proofs/ConstTie.v).  A closed boolean computed by the kernel. ---- *)
+From Astisub Require Proofs.ConstTie Proofs.ConstTieVtt.
+Theorem C02_constants_from_source : ConstTie.all ConstTieVtt.VttTie.ties = true.
+Proof. exact ConstTieVtt.VttTie.consts_from_source. Qed.
 Print Assumptions C02_constants_from_source.
